@@ -510,7 +510,7 @@ Lemma logic_activate p cnt tx a pw seq' rnd :
     6 0 0x3a ([a; b_priv p] ++ b_chal p ++ le_bytes 4 rnd)
   = (mkB (P4 a None) None cnt, LData ([0; a] ++ le_bytes 4 (b_sid p) ++ le_bytes 4 (b_init p) ++ [b_priv p])).
 Proof.
-  intros Hpw Htmp Hch. unfold bmc_logic. cbn [N.eqb Pos.eqb andb b_ph].
+  intros Hpw Htmp Hch. unfold bmc_logic. cbn [N.eqb Pos.eqb andb b_ph]. unfold bmc_activate.
   cbn [p_auth p_sidb p_seqb p_code p_frame b_viol b_cnt].
   rewrite (le_val4 _ Htmp), !N.eqb_refl. cbn [andb negb]. rewrite Hpw.
   unfold bmc_code, spec_code, zpad16, pad16. rewrite bytes_eqb_refl. cbn [negb].
@@ -729,15 +729,18 @@ Lemma flag_viol s ph v : b_viol (flag s ph v) <> None.
 Proof. unfold flag. cbn. destruct (b_viol s); discriminate. Qed.
 
 Lemma order_enforced md5 p s pp lun data :
-  (b_ph s <> P1 -> b_viol (fst (bmc_logic md5 p s pp 6 lun 0x38 data)) <> None) /\
-  (b_ph s <> P2 -> b_viol (fst (bmc_logic md5 p s pp 6 lun 0x39 data)) <> None) /\
-  ((forall a, b_ph s <> P3 a) -> b_viol (fst (bmc_logic md5 p s pp 6 lun 0x3a data)) <> None).
+  (b_ph s <> P1 -> b_ph s <> P2 -> b_viol (fst (bmc_logic md5 p s pp 6 lun 0x38 data)) <> None) /\
+  (b_ph s <> P2 -> (forall a, b_ph s <> P3 a) -> b_viol (fst (bmc_logic md5 p s pp 6 lun 0x39 data)) <> None) /\
+  ((forall a, b_ph s <> P3 a) -> (forall a, b_ph s <> P4 a None) ->
+   b_viol (fst (bmc_logic md5 p s pp 6 lun 0x3a data)) <> None).
 Proof.
-  unfold bmc_logic. cbn [N.eqb Pos.eqb andb]. repeat split; intros H.
-  - destruct (b_ph s); try (cbn [fst]; apply flag_viol). contradiction.
-  - destruct data as [|a user]; [cbn [fst]; apply flag_viol|].
-    destruct (b_ph s); try (cbn [fst]; apply flag_viol). contradiction.
-  - destruct (b_ph s) eqn:E; try (cbn [fst]; apply flag_viol). exfalso. eapply H. reflexivity.
+  unfold bmc_logic. cbn [N.eqb Pos.eqb andb]. repeat split.
+  - intros H1 H2. destruct (b_ph s); try (cbn [fst]; apply flag_viol); contradiction.
+  - intros H1 H2. destruct data as [|a user]; [cbn [fst]; apply flag_viol|].
+    destruct (b_ph s) eqn:E; try (cbn [fst]; apply flag_viol); [contradiction | exfalso; eapply H2; reflexivity].
+  - intros H1 H2. destruct (b_ph s) as [| | |a|a [l|]|] eqn:E; try (cbn [fst]; apply flag_viol).
+    + exfalso. eapply H1. reflexivity.
+    + exfalso. eapply H2. reflexivity.
 Qed.
 
 (* silence: a device that never answers makes one exchange end in an error after at most
